@@ -6,11 +6,14 @@ use crate::scen_queue;
 pub fn scenarios(prop: &str) -> Vec<Box<dyn Scenario>> {
     match prop {
         "C01" => vec![Box::new(scen_queue::QueueFifo)],
+        "C04" => vec![Box::new(scen_queue::QueueFlushBarrier), Box::new(scen_queue::QueueFlushLiveness)],
+        "C05" => vec![Box::new(scen_queue::QueueShutdown)],
+        "C09" => vec![Box::new(scen_queue::QueueOverflow)],
         _ => vec![],
     }
 }
 
-pub const CLAIMED: [&str; 1] = ["C01"];
+pub const CLAIMED: [&str; 4] = ["C01", "C04", "C05", "C09"];
 
 pub struct Budget {
     /// number of runs (quick: exactly this many; thorough: upper bound)
@@ -23,7 +26,10 @@ pub struct Budget {
 
 pub fn budget(prop: &str, tier: Tier) -> Budget {
     let (q, t) = match prop {
-        "C01" => (40_000, 600),
+        "C01" => (120_000, 600),
+        "C04" => (60_000, 720),
+        "C05" => (120_000, 600),
+        "C09" => (150_000, 480),
         _ => (20_000, 600),
     };
     match tier {
